@@ -4,11 +4,11 @@ Import ListNotations.
 From Orca Require Import Util Reindex Reorg ReidxProofs ReidxBind ReidxInv CheckReidx SelfReidx.
 Local Open Scope N_scope.
 
-(* after recalculate_ids a deleted item survives in the index space only as a later-region import (D06) or
-   as a converted original import (D26); every live item is kept *)
+(* after recalculate_ids no deleted item survives in the index space, whatever its kind and region (before the
+   repair of D06 / D26 a deleted later-region import and a deleted converted original import did); every live item
+   is kept *)
 Theorem C09_deleted_survivors :
-  forall (orig : nat) (l : list item) (i : item), In i (spec orig l) -> it_del i = true ->
-    (is_import i = true /\ In i (skipn orig l)) \/ (is_local i = true /\ In i (firstn orig l)).
+  forall (orig : nat) (l : list item) (i : item), In i (spec orig l) -> it_del i = true -> False.
 Proof. exact spec_deleted_survivors. Qed.
 Print Assumptions C09_deleted_survivors.
 Theorem C09_live_items_kept :
@@ -20,10 +20,16 @@ Theorem C09_dangling_reference_is_loud : forall l k, ~ In k (map it_id l) -> loo
 Proof. exact mapping_absent. Qed.
 Print Assumptions C09_dangling_reference_is_loud.
 
-(* D26: an import converted to a local and then deleted stays among the locals and shifts later maps *)
-Example C09_refuted_D26 :
+(* former D26 (an import converted to a local and then deleted stayed among the locals and shifted later maps;
+   repaired): the witness now satisfies the property *)
+Example C09_former_D26_witness_holds :
   let c := self_r [(0, 1); (0, 2)] [99] [] [] [ImportToLocal 0 31; Delete SF 0; ImportToLocal 1 32] [mkSite KCode SF 1 (OFunc 2)] in
-  agree c = true /\ dom_of (verdict09 c) = true /\ holds_of (verdict09 c) = false /\ known_D26 c = true.
+  agree c = true /\ dom_of (verdict09 c) = true /\ holds_of (verdict09 c) = true.
+Proof. vm_compute. repeat split; reflexivity. Qed.
+(* former D06 on a deletion history *)
+Example C09_former_D06_witness_holds :
+  let c := self_r [] [11; 99] [] [] [AddImport SF 21; Delete SF 2] [mkSite KCode SF 0 (OFunc 1)] in
+  agree c = true /\ dom_of (verdict09 c) = true /\ holds_of (verdict09 c) = true.
 Proof. vm_compute. repeat split; reflexivity. Qed.
 (* loud failure: a live reference to a deleted function makes encode panic *)
 Example C09_loud :
@@ -36,12 +42,12 @@ Example C09_nonvacuous :
   agree c = true /\ dom_of (verdict09 c) = true /\ holds_of (verdict09 c) = true.
 Proof. vm_compute. repeat split; reflexivity. Qed.
 
-(* ---- over every reachable state (Proofs/ReidxInv.v): outside D02 / D06 / D26 the recomputed index space is
+(* ---- over every reachable state (Proofs/ReidxInv.v): outside D02 the recomputed index space is
    exactly the live items, each once, the emitted module lists exactly their entities in that order, every live
    item's id maps to its position, a deleted item's id has no entry (a remaining reference fails loudly), and
    index_space never hits its own length assertion *)
 Theorem C09_index_space_is_exactly_the_live_items :
-  forall m x, wf m -> okD02 x m = true -> okD06 x m = true -> okD26 x m = true ->
+  forall m x, wf m -> okD02 x m = true ->
   forall l mp, index_space (get_sp m x) = Ok (l, mp) ->
   space_of_model m l x = map it_fp l /\ NoDup (map it_id l) /\
   (forall it, In it l <-> In it (s_items (get_sp m x)) /\ it_del it = false) /\
@@ -49,7 +55,7 @@ Theorem C09_index_space_is_exactly_the_live_items :
 Proof. exact wf_space_is_index_space. Qed.
 Print Assumptions C09_index_space_is_exactly_the_live_items.
 Theorem C09_deleted_ids_are_unmapped :
-  forall m x, wf m -> okD06 x m = true -> okD26 x m = true ->
+  forall m x, wf m ->
   forall l mp, index_space (get_sp m x) = Ok (l, mp) ->
   forall id, (forall it, In it (s_items (get_sp m x)) -> it_id it = id -> it_del it = true) -> lookup mp id = None.
 Proof. exact wf_deleted_unmapped. Qed.
